@@ -59,9 +59,17 @@ type NamedPtr struct {
 
 func (*NamedPtr) EventTypeName() string { return "c09.named-ptr.v2" }
 
+// Envelope names itself by value: one Go type, many event type names.
+type Envelope struct {
+	ID   int    `json:"id"`
+	Kind string `json:"kind"`
+}
+
+func (e Envelope) EventTypeName() string { return "c09.envelope." + e.Kind }
+
 // Val describes the generated field values of one event.
 type Val struct {
-	Shape string  `json:"shape"` // plain ptr named namedptr namedvalptr
+	Shape string  `json:"shape"` // plain ptr named namedptr namedvalptr envelope
 	S     string  `json:"s,omitempty"`
 	F     float64 `json:"f,omitempty"`
 	I64   int64   `json:"i64,omitempty"`
@@ -247,6 +255,7 @@ func Run(c *Case) *vkit.Outcome {
 	eventbus.SubscribeContext(bus, func(_ context.Context, e Named) { inHandler(e.ID, e) })
 	eventbus.Subscribe(bus, func(e *NamedPtr) { inHandler(e.ID, e) })
 	eventbus.Subscribe(bus, func(e *Named) { inHandler(e.ID, e) })
+	eventbus.Subscribe(bus, func(e Envelope) { inHandler(e.ID, e) })
 
 	publish := func(id int, v Val) {
 		var ev any
@@ -268,6 +277,11 @@ func Run(c *Case) *vkit.Outcome {
 			e := Named{ID: id, F: v.F}
 			ev = e
 			eventbus.PublishContext(bus, context.Background(), e)
+		case "envelope":
+			// the name varies with the value: S picks one of a few kinds
+			e := Envelope{ID: id, Kind: fmt.Sprintf("k%d", len(v.S)%3)}
+			ev = e
+			eventbus.Publish(bus, e)
 		case "namedvalptr":
 			e := &Named{ID: id, F: v.F}
 			ev = e
@@ -434,6 +448,12 @@ func decodesBack(se *eventbus.StoredEvent, want []byte) bool {
 	case "c09.named-ptr.v2":
 		var e NamedPtr
 		if json.Unmarshal(se.Data, &e) != nil {
+			return false
+		}
+		v = e
+	case "c09.envelope.k0", "c09.envelope.k1", "c09.envelope.k2":
+		var e Envelope
+		if json.Unmarshal(se.Data, &e) != nil || e.EventTypeName() != se.Type {
 			return false
 		}
 		v = e
